@@ -35,8 +35,20 @@ func checkErrorLocation(src []rune, s *Scanner, err error) {
 	nd.Assert(idx <= s.MaxI, "the error position lies inside the text consumed so far")
 	if idx < len(src) && idx < s.MaxI {
 		r := src[idx]
-		// (a newline is a token of the grammar; blanks are not)
-		nd.Assert(!nd.Or(r == ' ', r == '\t'), "the error position designates the start of a token, not a blank")
+		// (a newline is a token of the grammar; blanks are not). The delimiter
+		// line of a <<- here-document starts with its leading tabs: column 1
+		// of a tab-indented line is the start of that construct.
+		tabLine := false
+		if pe.Pos.Col() == 1 {
+			j := idx
+			for j < len(src) && src[j] == '\t' {
+				j++
+			}
+			tabLine = j > idx && j < len(src) && src[j] != ' ' && src[j] != '\n'
+		}
+		if !tabLine {
+			nd.Assert(!nd.Or(r == ' ', r == '\t'), "the error position designates the start of a token, not a blank")
+		}
 	}
 }
 
